@@ -345,8 +345,13 @@ fn wide_stage_of(rng: &mut StdRng, n: usize) -> Prog {
         let t = *[1u8, 3, 3, 3, 5].choose(rng).unwrap();
         ops.push(Op::Add { r: vec![], w: if own { vec![301 + i as Res] } else { vec![] }, deps: vec![], t, name: format!("w{}", i) });
     }
+    // late-comers conflict with exactly one owner each (the stage keeps exactly n groups)
+    let owners: Vec<usize> = ops.iter().enumerate().filter(|(_, o)| matches!(o, Op::Add { w, .. } if !w.is_empty())).map(|(i, _)| i).collect();
     for k in 0..rng.gen_range(2..=6) {
-        let i = if rng.gen_bool(0.7) { n - 1 - rng.gen_range(0..n.min(3)) } else { rng.gen_range(0..n) };
+        if owners.is_empty() {
+            break;
+        }
+        let i = if rng.gen_bool(0.7) { owners[owners.len() - 1 - rng.gen_range(0..owners.len().min(3))] } else { *owners.choose(rng).unwrap() };
         let t = *[1u8, 1, 3, 5].choose(rng).unwrap();
         let (r, w) = if rng.gen_bool(0.5) { (vec![], vec![301 + i as Res]) } else { (vec![301 + i as Res], vec![]) };
         ops.push(Op::Add { r, w, deps: vec![], t, name: format!("late{}", k) });
@@ -399,7 +404,7 @@ pub fn gen_boundary(i: usize, rng: &mut StdRng) -> Option<Prog> {
 /// More distinct resources in one builder than a machine word has bits (65..140), each system touching few of
 /// them: conflicts on the late resources only.
 pub fn gen_many_res(rng: &mut StdRng) -> Prog {
-    let nres = *[63u32, 64, 65, 66, 100, 129, 140].choose(rng).unwrap();
+    let nres = *[63u32, 64, 65, 66, 100, 127, 128, 129, 140, 200].choose(rng).unwrap();
     let mut ops = Vec::new();
     let mut k = 0;
     // first touch every resource once, in order (a reader of many, or one system each)
@@ -415,7 +420,14 @@ pub fn gen_many_res(rng: &mut StdRng) -> Prog {
     }
     // then pairs that conflict only on one (mostly late) resource
     for _ in 0..rng.gen_range(3..=10) {
-        let x = if rng.gen_bool(0.7) { 400 + nres - rng.gen_range(0..nres.min(4)) } else { 400 + rng.gen_range(1..=nres) };
+        // (sometimes a resource nobody has touched so far: its first user joins the crowded first stage)
+        let x = if rng.gen_bool(0.35) {
+            400 + nres + 1 + rng.gen_range(0..3)
+        } else if rng.gen_bool(0.7) {
+            400 + nres - rng.gen_range(0..nres.min(4))
+        } else {
+            400 + rng.gen_range(1..=nres)
+        };
         for _ in 0..2 {
             let t = *[1u8, 3, 5].choose(rng).unwrap();
             let (r, w) = if rng.gen_bool(0.7) { (vec![], vec![x]) } else { (vec![x], vec![]) };
@@ -555,7 +567,20 @@ pub fn gen_prog(rng: &mut StdRng, cfg: &GenCfg, depth: usize, prefix: &str) -> P
                 name: name.clone(),
             });
         } else {
-            let (r, w) = pick_acc(rng);
+            let (mut r, mut w) = pick_acc(rng);
+            // next to a batch whose controller declares data of its own: outer systems touching exactly that data
+            // (without any dependency on the batch) - the batch's access is the union INCLUDING the controller's
+            let ctl_near = ops.iter().rev().take(3).any(|o| matches!(o, Op::Batch { ctl, .. } if *ctl != 0));
+            if ctl_near && deps.is_empty() && rng.gen_bool(0.6) {
+                r.retain(|x| *x != CTL_A && *x != CTL_B);
+                w.retain(|x| *x != CTL_A && *x != CTL_B);
+                let x = *[CTL_A, CTL_B].choose(rng).unwrap();
+                if rng.gen_bool(0.5) {
+                    r.push(x)
+                } else {
+                    w.push(x)
+                }
+            }
             ops.push(Op::Add {
                 r,
                 w,
@@ -623,7 +648,9 @@ impl Variant {
         let span = (resources.len() as u64 / 2).max(3);
         for ty in 0..4u8 {
             for d in 0..span {
-                cells.push((ty, if rng.gen_bool(0.3) { d * 1_000_003 + 7 } else { d }));
+                // (ids that differ only in their high bits, or only above bit 8 / 16, and the extremes)
+                const NASTY: [u64; 12] = [1 << 32, (1 << 32) | 1, (2 << 32) | 1, (1 << 16) | 1, (1 << 8) | 1, 256, 65536, u32::MAX as u64, u64::MAX, 1 << 63, (1 << 63) | 1, (3 << 32) | 1];
+                cells.push((ty, if rng.gen_bool(0.3) { d * 1_000_003 + 7 } else if rng.gen_bool(0.25) { NASTY[(d as usize) % NASTY.len()] } else { d }));
             }
         }
         cells.sort();
